@@ -1905,3 +1905,65 @@ Proof.
   intros p0 rest q F H. destruct (merge_headers_lemma p0 rest q H) as (_ & _ & P & _).
   apply P. apply in_F25_false. exact F.
 Qed.
+
+(* ------------------------------------------------------------------ the symmetric header fields do
+   not depend on the order of the inputs *)
+Lemma min_list_perm : forall l l', Permutation l l' -> forall x, min_list x l = min_list x l'.
+Proof.
+  intros l l' H. induction H as [| y l l' _ IH | y z l | l l' l'' _ IH1 _ IH2]; intros x; cbn [min_list].
+  - reflexivity.
+  - apply IH.
+  - f_equal. lia.
+  - rewrite IH1. apply IH2.
+Qed.
+
+Lemma filter_perm : forall {A} (f : A -> bool) l l', Permutation l l' -> Permutation (filter f l) (filter f l').
+Proof.
+  intros A f l l' H. induction H as [| y l l' _ IH | y z l | l l' l'' _ IH1 _ IH2]; cbn [filter].
+  - constructor.
+  - destruct (f y); [constructor|]; exact IH.
+  - destruct (f y); destruct (f z); try apply Permutation_refl. apply perm_swap.
+  - eapply Permutation_trans; eauto.
+Qed.
+
+Lemma spec_time_perm : forall l l', Permutation l l' -> spec_time l = spec_time l'.
+Proof.
+  intros l l' H. unfold spec_time. pose proof (filter_perm (fun t => negb (t =? 0)) l l' H) as P.
+  revert P. generalize (filter (fun t => negb (t =? 0)) l) (filter (fun t => negb (t =? 0)) l').
+  intros a b P. induction P as [| y a b P IH | y z a | a b c _ IH1 _ IH2].
+  - reflexivity.
+  - apply min_list_perm. exact P.
+  - cbn [min_list]. f_equal. lia.
+  - congruence.
+Qed.
+
+Lemma spec_period_perm : forall l l', Permutation l l' -> spec_period l = spec_period l'.
+Proof.
+  intros l l' H. unfold spec_period.
+  induction H as [| y l l' _ IH | y z l | l l' l'' _ IH1 _ IH2]; cbn [fold_right]; lia.
+Qed.
+
+Theorem merge_perm_headers_lemma : forall ps ps' q q',
+  Permutation ps ps' -> merge ps = MOk q -> merge ps' = MOk q' ->
+  p_timenanos q = p_timenanos q' /\ p_durationnanos q = p_durationnanos q' /\
+  (in_F25 ps = false -> p_period q = p_period q') /\
+  (forall c, In c (p_comments q) <-> In c (p_comments q')).
+Proof.
+  intros ps ps' q q' P H H'.
+  destruct ps as [|p0 rest]; [cbn in H; discriminate|].
+  destruct ps' as [|p0' rest']; [cbn in H'; discriminate|].
+  destruct (merge_headers_lemma _ _ _ H) as (T & D & Pd & C & _).
+  destruct (merge_headers_lemma _ _ _ H') as (T' & D' & Pd' & C' & _).
+  split; [rewrite T, T'; apply spec_time_perm; apply Permutation_map; exact P|].
+  split; [rewrite D, D'; unfold spec_duration; f_equal; apply sumZ_perm; apply Permutation_map; exact P|].
+  split.
+  - intros F. pose proof (in_F25_false _ F) as G.
+    rewrite Pd by exact G. rewrite Pd'.
+    + apply spec_period_perm. apply Permutation_map. exact P.
+    + rewrite Forall_forall in *. intros x Hx. apply G. eapply Permutation_in; [apply Permutation_sym; exact P | exact Hx].
+  - intros c. rewrite C, C'. unfold spec_comments. rewrite !dedup_in, !in_concat.
+    split; intros [l [Hl Hc]]; exists l; (split; [|exact Hc]);
+      apply in_map_iff in Hl; destruct Hl as [p [<- Hp]]; apply in_map.
+    + eapply Permutation_in; eauto.
+    + eapply Permutation_in; [apply Permutation_sym; exact P | exact Hp].
+Qed.
